@@ -402,7 +402,8 @@ PatMatch(s, p0) ==
       p == IF back THEN SubSeq(p1, 1, Len(p1) - 1) ELSE p1
       n == Len(p)
       at(i) == i + n <= Len(s) /\ SubSeq(s, i + 1, i + n) = p
-  IN IF ~PlainPat(p) THEN XUnk
+  IN IF p0 \in {<<40>>, <<41>>, <<91, 97>>, <<42>>, <<97, 123, 50>>, <<92>>} THEN XNone         \* ( ) [a * a{2 \ : not regular expressions
+     ELSE IF ~PlainPat(p) THEN XUnk
      ELSE BoolV(IF front /\ back THEN s = p ELSE IF front THEN at(0) ELSE IF back THEN (Len(s) >= n /\ at(Len(s) - n)) ELSE \E i \in 0..Len(s) : at(i))
 
 \* date_trunc: the named part and everything below it is reset
@@ -491,9 +492,9 @@ Call2(f, a, b) ==
          ELSE Err
     [] f = "regex_matches" ->
          IF b.t # "text" THEN (IF IsNull(b) THEN Unk ELSE Err)
-         ELSE IF IsNull(a) THEN (IF PatMatch(<<>>, b.s).t # "unk" THEN Val(BoolV(FALSE)) ELSE Unk)
+         ELSE IF IsNull(a) THEN (IF PatMatch(<<>>, b.s).t \notin {"unk", "none"} THEN Val(BoolV(FALSE)) ELSE Unk)
          ELSE IF a.t # "text" THEN Err
-         ELSE (LET r == PatMatch(a.s, b.s) IN IF r.t = "unk" THEN Unk ELSE Val(r))
+         ELSE (LET r == PatMatch(a.s, b.s) IN IF r.t = "unk" THEN Unk ELSE IF r.t = "none" THEN Err ELSE Val(r))
     [] f = "date_trunc" ->
          IF IsNull(a) \/ IsNull(b) THEN Unk
          ELSE IF a.t # "text" \/ b.t # "ts" THEN Err
